@@ -259,15 +259,13 @@ class Inventory:
             # not clean: fall through to the generic inventory so that the individual sites are reported as well
         if f.path in ("msg::mask_to_id_vec_u64", "msg::mask_to_id_vec_u32", "msg::cell_mask_id_vec"):
             # decided by abstract interpretation with if-conversion (guardsem): all pushes, indices and arithmetic evaluated per partition
-            import guardsem, msm
+            import msm
             if f.path == "msg::cell_mask_id_vec":
-                if id(prog) not in msm._CELLSEM:
-                    msm._CELLSEM[id(prog)] = guardsem.check_cellvec(prog)
-                okk = msm._CELLSEM[id(prog)][0]
+                okk = msm.cellvec_sem(prog)[0]
             else:
-                okk = guardsem.check_idvec(prog, f.path, 64 if f.path.endswith("64") else 32)[0]
+                okk = msm.idvec_sem(prog, f.path, 64 if f.path.endswith("64") else 32)[0]
             if okk is True:
-                self.res.ob("P-sem", "%s | every push, index and arithmetic operation is decided on every abstract path" % f.path, True, "guardsem", f.loc)
+                self.res.ob("P-sem", "%s | every push, index and arithmetic operation is decided on every abstract path" % f.path, True, "guardsem / bitscansem", f.loc)
                 self.stats["sem"] = self.stats.get("sem", 0) + 1
                 return
         if f.path == "msg::message::MessageBuilder::build_message":
@@ -286,6 +284,29 @@ class Inventory:
             if not sem["undecided"] and not [1 for c, t_ in sem["problems"] if c == "panic"]:
                 self.res.ob("P-sem", "new | every Assert terminator, index and slice operation of MessageFrame::new is decided on every abstract path", True,
                             "framesem: %d paths over L in {0}, {1}, [2,1023]" % sem["paths"], f.loc)
+                self.stats["sem"] = self.stats.get("sem", 0) + 1
+                return
+        if f.path.startswith("message_frame::MessageFrame::") and f.path.rsplit("::", 1)[1] in ("frame_data", "data", "crc", "message_number", "data_len", "frame_len"):
+            # an accessor that derives its value (slicing, arithmetic on lengths) relies on the shape new() gives the frame; A-sem interprets
+            # every accessor on every frame value new() can return (framesem.observe), and frames are built nowhere else (P-pre)
+            import framing
+            sem = framing.frame_semantics(prog)
+            if not sem["undecided"] and not sem["problems"] and f.path.rsplit("::", 1)[1] in sem.get("observed", ()):
+                has_sites = any(t_["k"] == "assert" for t_ in (f.term(b_) for b_ in f.reachable())) or any(True for _ in f.calls())
+                if has_sites:
+                    self.res.ob("P-sem", "%s | evaluated on every frame MessageFrame::new can return: no assertion, index or slice operation fails" % f.path, True,
+                                "framesem.observe", f.loc)
+                    self.stats["sem"] = self.stats.get("sem", 0) + 1
+                    return
+        if f.path == "<&mut MsgFrameIter as core::iter::Iterator>::next":
+            # decided by abstract interpretation (framesem.check_iter) under the object invariant index <= data.len() (established by
+            # MsgFrameIter::new, preserved by `index += consumed` since the scanner reports at most the length of the slice it was given)
+            import framing
+            sem = framing.iter_semantics(prog)
+            ssem = framing.scan_semantics(prog)
+            if not sem["undecided"] and not sem["problems"] and ssem["decided"] and not ssem["problems"]:
+                self.res.ob("P-sem", "iter | every Assert terminator, index and slice operation of MsgFrameIter::next is decided on every abstract path", True,
+                            "framesem.check_iter: %d paths, under index <= data.len()" % sem["paths"], f.loc)
                 self.stats["sem"] = self.stats.get("sem", 0) + 1
                 return
         if f.path == "next_msg_frame":
